@@ -113,7 +113,7 @@ def protocol(tier: str, prop: str) -> list[dict]:
         dict(d, kind="discrete", dims=[3], S=8, masked=True, stack=[TO, CO, TL, TR]),
     ]
     if prop == "C12":
-        base = [base[i] for i in (1, 2, 4, 6, 8, 10)]
+        base = [base[i] for i in (1, 2, 4, 5, 6, 8, 10)]   # 5: Dict observations flattened (entry order is static structure)
     if tier == "quick":
         return base
     extra = [
@@ -141,6 +141,12 @@ def mask_query(tier: str, prop: str) -> list[dict]:
         dict(d, policy="qtable", kind="discrete", dims=[3], K=256, L=6, epsilon=0.0),
         dict(d, policy="mlp_q", kind="discrete", dims=[3], K=4096, L=3, epsilon=0.1),
         dict(d, policy="mlp_q", kind="discrete", dims=[4], K=4096, L=3, epsilon=0.5, obs_kind="dict"),
+        # frequency probes (many keys per context): keyed sampling follows the reported JOINT law; equal-sized components
+        dict(d, policy="table_ac", kind="multidiscrete", dims=[2, 2], K=2048, L=4),
+        dict(d, policy="table_ac", kind="multidiscrete", dims=[3, 3], K=2048, L=4),
+        dict(d, policy="mlp_ac", kind="multidiscrete", dims=[2, 2], K=2048, L=4),
+        dict(d, policy="table_ac", kind="multibinary", dims=[2], K=2048, L=4),
+        dict(d, policy="table_ac", kind="discrete", dims=[3], K=2048, L=4),
     ]
     if tier == "quick":
         return base
